@@ -341,15 +341,18 @@ Undetected(x, st) == RE(x, st, <<>>).und
 (* cannot see WHERE a nested record without attributes begins among the items that precede it: { x, {y} } and        *)
 (* { {x, y} } are the same to it.  CoarseForm moves the opening of every such nested record to the far left.        *)
 RECURSIVE Coarse(_)
-RECURSIVE CoarseItems(_, _, _)
-CoarseItems(is, k, acc) ==
+RECURSIVE Absorb(_, _, _)
+\* items k.. of a list of (already coarse) items; acc = what is left of the items before k
+Absorb(is, k, acc) ==
     IF k > Len(is) THEN acc
-    ELSE LET it == IF is[k].slot THEN SItem(Coarse(is[k].key), Coarse(is[k].val)) ELSE VItem(Coarse(is[k].val)) IN
+    ELSE LET it == is[k] IN
          IF ~it.slot /\ IsRec(it.val) /\ it.val.attrs = <<>> /\ it.val.items # <<>> /\ acc # <<>>
-           THEN CoarseItems(is, k + 1, <<VItem(Rec(<<>>, acc \o it.val.items))>>)
-           ELSE CoarseItems(is, k + 1, Append(acc, it))
+           THEN Absorb(is, k + 1, <<VItem(Rec(<<>>, Absorb(acc \o it.val.items, 1, <<>>)))>>)
+           ELSE Absorb(is, k + 1, Append(acc, it))
+CoarseItem(i) == IF i.slot THEN SItem(Coarse(i.key), Coarse(i.val)) ELSE VItem(Coarse(i.val))
 Coarse(x) ==
-    CASE x.t = "rec" -> Rec([k \in 1..Len(x.attrs) |-> Attr(x.attrs[k].name, Coarse(x.attrs[k].body))], CoarseItems(x.items, 1, <<>>))
+    CASE x.t = "rec" -> Rec([k \in 1..Len(x.attrs) |-> Attr(x.attrs[k].name, Coarse(x.attrs[k].body))],
+                            Absorb([k \in 1..Len(x.items) |-> CoarseItem(x.items[k])], 1, <<>>))
       [] OTHER -> x
 CoarseForm(x) == NF(Coarse(x))
 
